@@ -3,7 +3,7 @@
 TIER="$1"; shift
 for seed in "$@"; do
   for i in $(seq -w 1 20); do
-    out=$(VERIF_SEED=$seed /verif/check C$i $TIER 2>&1); rc=$?
+    out=$(VERIF_SEED=$seed "$(dirname "$0")/../check" C$i $TIER 2>&1); rc=$?
     echo "seed=$seed C$i exit=$rc $(echo "$out" | tail -1 | cut -c1-160)"
     if [ $rc -ne 0 ]; then echo "$out" | grep "signature:\|INCONCLUSIVE" | head -8 | cut -c1-200; fi
   done
